@@ -246,6 +246,10 @@ class _Rules:
     def obj2(self, obj: Any) -> Optional[CustomErr]:
         return _obj_len_parity(obj)
 
+    def obj3(self, obj: Any) -> Any:
+        from koda_validate.serialization import SerializableErr
+        return SerializableErr(["custom object check failed", 3])
+
     async def aobj0(self, obj: Any) -> Optional[CustomErr]:
         return await _uaobj0(obj)
 
